@@ -7,6 +7,7 @@ import (
 	"reflect"
 	"strings"
 	"time"
+	_ "time/tzdata"
 )
 
 // Value synthesis by reflection: parameter / field name first (pools of
@@ -39,6 +40,19 @@ func (r *Rng) hex(n int) string {
 func (r *Rng) mcc() string { return r.Pick([]string{"208", "001", "466", "310", "999", "262"}) }
 func (r *Rng) mnc() string {
 	return r.Pick([]string{"93", "01", "92", "410", "001", "99", "260"})
+}
+
+// realZones: loaded once on the main goroutine (the database is embedded through
+// time/tzdata, so no system zoneinfo is needed).
+var realZones []*time.Location
+
+func init() {
+	for _, n := range []string{"Europe/Berlin", "America/New_York", "Australia/Sydney", "Europe/Dublin", "Asia/Kolkata",
+		"Pacific/Chatham", "America/St_Johns", "Asia/Taipei", "America/Sao_Paulo", "Africa/Casablanca", "Australia/Lord_Howe"} {
+		if l, err := time.LoadLocation(n); err == nil {
+			realZones = append(realZones, l)
+		}
+	}
 }
 
 var dnnPool = []string{"internet", "ims", "free5gc.org", "a", "internet.mnc093.mcc208.gprs", ""}
@@ -160,12 +174,15 @@ func (s *synth) value(t reflect.Type, name string, depth int) (reflect.Value, bo
 	case timeType:
 		sec := int64(946684800 + r.Intn(3155760000)) // 2000..2099
 		var loc *time.Location
-		switch r.Intn(3) {
-		case 0:
+		switch x := r.Intn(6); {
+		case x == 0:
 			loc = time.UTC
-		default:
+		case x <= 2 || len(realZones) == 0:
 			q := r.Intn(113) - 56 // quarter hours
 			loc = time.FixedZone("", q*900)
+		default:
+			// real tz-database zones: daylight saving, half-hour and 45-minute offsets
+			loc = realZones[r.Intn(len(realZones))]
 		}
 		v.Set(reflect.ValueOf(time.Unix(sec, 0).In(loc)))
 		return v, true
@@ -261,7 +278,7 @@ func (s *synth) value(t reflect.Type, name string, depth int) (reflect.Value, bo
 			v.SetUint(uint64(r.Intn(32)))
 		case ln == "direction" && r.Chance(85):
 			v.SetUint(uint64(r.Intn(2)))
-		case ln == "algoid" && r.Chance(90):
+		case ln == "algoid" && r.Chance(75):
 			v.SetUint(uint64(r.Intn(4)))
 		case len(RegConsts) > 0 && r.Chance(25):
 			// one of the library's own exported constants (message types, IEIs, causes ...)
@@ -269,9 +286,13 @@ func (s *synth) value(t reflect.Type, name string, depth int) (reflect.Value, bo
 			if t.Bits() >= 64 {
 				max = ^uint64(0)
 			}
-			c := RegConsts[r.Intn(len(RegConsts))]
+			pool := RegConsts
+			if t.Bits() == 16 && len(RegConsts16) > 0 && r.Chance(70) {
+				pool = RegConsts16 // identifiers declared as 16-bit constants (PCO container ids ...)
+			}
+			c := pool[r.Intn(len(pool))]
 			for tries := 0; c > max && tries < 4; tries++ {
-				c = RegConsts[r.Intn(len(RegConsts))]
+				c = pool[r.Intn(len(pool))]
 			}
 			v.SetUint(c & max)
 		default:
